@@ -565,6 +565,41 @@ def special_blocks(ctx, tmp):
             viol(f"associate of refs of two dataset types, the later one conflicting ({how}): refused, but the TAGGED collection changed: "
                  f"{ {k_[1]: len(v_) for k_, v_ in tag_before.items()} } -> { {k_[1]: len(v_) for k_, v_ in tag_after.items()} } datasets per type",
                  f"associate-two-types:{how}", {"kind": "special", "scenario": "associate-two-types", "how": how})
+    # ---- (3) a removal that fails inside a block which catches the failure and commits: all-or-nothing, and the next emptying of the
+    # trash must not take the artifacts of datasets that are still registered
+    b.registry.registerRun("r_held")
+    held = [b.put({"h": d_}, dta, instrument="I", detector=d_, run="r_held") for d_ in (1, 2)]
+    b.registry.registerCollection("holder", CollectionType.CHAINED)
+    b.registry.setCollectionChain("holder", ["r_held"])
+    for what, removal in (("removeRuns", lambda: b.removeRuns(["r_held"], unstore=True)),):
+        before = snapshot(b, root, [dta, dtb])
+        failed = None
+        with b.transaction():
+            b.registry.associate("stag", [a1]) if False else None
+            try:
+                removal()
+            except Exception as e:
+                failed = type(e).__name__
+        ctx.evaluations += 1
+        ctx.count(f"special:failed-{what}-caught-inside-a-committing-block")
+        b._datastore.emptyTrash()
+        fresh_b = Butler.from_config(root)
+        problems = []
+        if failed is None:
+            problems.append("the removal of a run held by a CHAINED collection was accepted")
+        else:
+            for r_ in held:
+                if fresh_b.registry.getDataset(r_.id) is None:
+                    problems.append(f"dataset {r_.dataId['detector']} of the run is no longer registered")
+                    continue
+                try:
+                    if fresh_b.get(r_) != {"h": r_.dataId["detector"]}:
+                        problems.append(f"dataset {r_.dataId['detector']} changed")
+                except Exception as e:
+                    problems.append(f"dataset {r_.dataId['detector']} of the run is still registered but cannot be read after the next trash emptying ({type(e).__name__})")
+        if problems:
+            viol(f"{what} of a run held by a CHAINED collection fails ({failed}) inside a block that catches the failure and commits: " + "; ".join(problems[:2]),
+                 f"failed-removal-caught-in-committing-block:{what}", {"kind": "special", "scenario": "failed-removal-in-committing-block", "removal": what, "problems": problems})
     try:
         if b.get(keep) != {"keep": 1}:
             viol("special blocks: an unrelated dataset changed", "special-other", {"kind": "special"})
